@@ -11,4 +11,34 @@ STANDING_ASSUMPTIONS = [
     'termination is proved only where a decreases clause is given',
 ]
 
-CLAIMED = {}
+CLAIMED = {
+    'C01': dict(level='proof', assumptions=[
+        'claim is partial: the listed functions are total on hostile trace/CID data; not "the interpreter is total" (parser, beautifier, rkyv check_bytes, recursion depth, allocation inside dependencies are not covered)',
+    ]),
+    'C02': dict(level='proof', assumptions=[
+        'internal failure of the farewell step itself (stream compactification or signing error inside populate_outcome_from_contexts) returns that error\'s code with EMPTY data (F11, DESIGN.md section 5): every C02 contract is stated "unless internal_failure_outcome"',
+        'error-code ranges of to_error_code are taken from job C02.codes (native, exhaustive over the strum discriminants)',
+        '"decodable" = the data is the serialization of an envelope; the rkyv/rmp round trip itself is trusted (C27)',
+    ]),
+    'C09': dict(level='proof', assumptions=[
+        'local claim: per-state joins and slider restores; whole-trace multiset preservation over par/fold repositioning is an unproved composition step',
+    ]),
+    'C22': dict(level='proof', assumptions=[
+        '"otherwise behaves exactly as an unlimited run" is covered only as: the flags are the only thing the check changes in execute_air_impl',
+    ]),
+}
+
+# properties not claimed: reason (DESIGN.md section 3 / 6)
+NOT_APPLICABLE = {
+    'C03': 'relation over a whole output (trace x 5 CID stores x signature tracker x Ed25519); its only contract-sized part (handler appends a CID-bearing state => records the CID) fails on an input outside the property quantifier (F8), so a check would alarm on code where the property holds',
+    'C04': 'protocol invariant over all interleavings of multi-peer histories; no single call has a pre/postcondition stating it',
+    'C16': 'needs a reference semantics of AIR programs and a simulation relation (translation validation: another family)',
+    'C17': 'provenance flows through dyn JValuable, Rc sharing and external String lens formatting that Verus cannot see through and Kani cannot bound',
+    'C20': 'two-run (2-safety) statement whose only enemy is RandomState-dependent HashMap iteration order; Verus abstracts the map, Kani must fix the hasher keys',
+    'C23': '9.6 kLOC generated table-driven LALR(1) driver over &str plus a HashMap<&str,Span> validator driven by generated actions: outside Verus, beyond CBMC bounds',
+    'C26': 'serde_json printer/parser, ryu/itoa, f64 text and UTF-8 escaping: floating point and string reasoning where this family is silent',
+    'C28': 'observable behaviour is bytes written through std::fmt macros; stating anything needs a model of the beautifier, not the beautifier',
+}
+# claimed in DESIGN.md but whose units are not registered yet (kept current as units land)
+PENDING = {k: 'claimed in DESIGN.md; its unit is not registered yet (work in progress)' for k in
+           ['C05', 'C06', 'C07', 'C08', 'C10', 'C11', 'C12', 'C13', 'C14', 'C15', 'C18', 'C19', 'C21', 'C24', 'C25', 'C27']}
